@@ -450,6 +450,7 @@ func (rc *raftNode) startRaft(ds DataStorage, standalone bool) error {
 		rc.node = raft.StartNode(c, startPeers, isLearner)
 	}
 	rc.initForTransport()
+	verifStorage(rc.raftStorage)
 	rc.wgServe.Add(1)
 	go func() {
 		defer rc.wgServe.Done()
